@@ -82,7 +82,7 @@ Hypothesis div3by2_ok : forall d lo hi, norm2 w d -> 0 <= lo < B -> 0 <= hi < d 
 Hypothesis div4by2_ok : forall d lo hi, norm2 w d -> 0 <= lo < B * B -> 0 <= hi < d ->
   div4by2 d lo hi = ((lo + B * B * hi) / d, (lo + B * B * hi) mod d).
 Variable mul_sub : list Z -> list Z -> list Z -> list Z * Z.
-Hypothesis mul_sub_ok : forall c a b c' k, wf c -> wf a -> wf b -> (length a + length b <= length c)%nat ->
+Hypothesis mul_sub_ok : forall c a b c' k, wf c -> wf a -> wf b -> length c = (length a + length b)%nat ->
   mul_sub c a b = (c', k) ->
   wf c' /\ length c' = length c /\ value c' + B ^ len c * k = value c - value a * value b.
 Variable T : nat.
